@@ -519,6 +519,35 @@ pub fn t_impl(a: &[i64]) -> Val {
     build_one(ps, &m)
 }
 
+// t_impl6: `type T { a: u32 }` with one address-bound impl function of up to 6 parameters (C05: parameter order and types for longer lists).
+// a = [ps, address, recv, nargs, t0..t5 (arg_type codes), ret(0 none, k+1)]
+pub fn t_impl6(a: &[i64]) -> Val {
+    let ps = a[0] as usize;
+    let mut args: Vec<Ar> = vec![];
+    match a[2] {
+        1 => args.push(Ar::ConstSelf),
+        2 => args.push(Ar::MutSelf),
+        _ => {}
+    }
+    let nargs = a[3] as usize;
+    let mut j = 0;
+    while j < nargs && j < 6 {
+        args.push(Ar::named(ARG_NAMES[j], arg_type(a[4 + j])));
+        j += 1;
+    }
+    let mut f = F::new((V::Public, "g0"), args).with_attributes([A::integer_fn("address", a[1] as isize)]);
+    if a[10] != 0 {
+        f = f.with_return_type(arg_type(a[10] - 1));
+    }
+    let m = M::new()
+        .with_definitions([ID::new(
+            (V::Public, "T"),
+            TD::new([TS::field((V::Public, "a"), T::ident("u32"))]).with_attributes([A::align(4)]),
+        )])
+        .with_impls([FB::new("T", [f])]);
+    build_one(ps, &m)
+}
+
 // t_implname: impl block of T whose function names may already be taken (C05: every declared #[address] function is emitted, or the
 // description is rejected).
 //   type Bz { x: u32 }  impl Bz { #[address(256)] [pub] fn <bname>(&self) -> u32; }         (base_kind != 0)
@@ -1385,6 +1414,7 @@ pub const TEMPLATES: &[(&str, Template)] = &[
     ("t_enum", t_enum),
     ("t_impl", t_impl),
     ("t_implname", t_implname),
+    ("t_impl6", t_impl6),
     ("t_vft", t_vft),
     ("t_graph", t_graph),
     ("t_scope", t_scope),
